@@ -115,6 +115,13 @@ class Gen:
         if k < 17:
             return ("def", self.bexpr(d - 1)) if r.chance(1, 2) else ("defi", self.iexpr(d - 1))
         if k < 19:
+            c = r.below(4)
+            if c == 0:
+                lo = self.offset_expr(d - 1)
+                hi = ("add", lo, ("lit", r.below(12))) if r.chance(1, 2) else self.offset_expr(d - 1)
+                return ("ofin", self.quant(), self.strset(), lo, hi)
+            if c == 1:
+                return ("ofat", self.quant(), self.strset(), self.offset_expr(d - 1))
             return ("of", self.quant(), self.strset())
         if k < 20:
             return ("int", self.iexpr(d - 1))
@@ -175,6 +182,10 @@ def sexp(e):
         return "( cmp %s %s %s )" % (e[1], sexp(e[2]), sexp(e[3]))
     if k == "of":
         return "( of %s %d %s )" % (qsexp(e[1]), len(e[2]), " ".join(str(x) for x in e[2]))
+    if k == "ofin":
+        return "( ofin %s %d %s %s %s )" % (qsexp(e[1]), len(e[2]), " ".join(str(x) for x in e[2]), sexp(e[3]), sexp(e[4]))
+    if k == "ofat":
+        return "( ofat %s %d %s %s )" % (qsexp(e[1]), len(e[2]), " ".join(str(x) for x in e[2]), sexp(e[3]))
     if k == "forin":
         return "( forin %s %s %s %s )" % (qsexp(e[1]), sexp(e[2]), sexp(e[3]), sexp(e[4]))
     if k == "forlist":
@@ -205,7 +216,7 @@ def level(e):
         return LV_OR
     if k == "int":
         return level(e[1])
-    if k in ("at", "in", "curat", "curin", "of", "forin", "forlist", "forof"):
+    if k in ("at", "in", "curat", "curin", "of", "ofin", "ofat", "forin", "forlist", "forof"):
         return 50     # parsed as units by the grammar (their operands are parenthesised below)
     return 100
 
@@ -298,6 +309,10 @@ class Printer:
             return self.raw(e[1])
         if k == "of":
             return "%s of %s" % (self.q(e[1]), self.sset(e[2]))
+        if k == "ofin":
+            return "%s of %s in (%s..%s)" % (self.q(e[1]), self.sset(e[2]), self.raw(e[3]), self.raw(e[4]))
+        if k == "ofat":
+            return "%s of %s at %s" % (self.q(e[1]), self.sset(e[2]), self.arg(e[3]))
         if k == "forin":
             name = "i%d" % len(self.varstack)
             lo, hi = self.raw(e[2]), self.raw(e[3])
@@ -323,7 +338,7 @@ def has_undefined_quant_risk(e):
     """does the tree contain a numeric quantifier that is not a literal (may evaluate to undefined)?"""
     if not isinstance(e, tuple):
         return False
-    if e[0] in ("of", "forin", "forlist", "forof") and not isinstance(e[1], str) and e[1][1][0] != "lit":
+    if e[0] in ("of", "ofin", "ofat", "forin", "forlist", "forof") and not isinstance(e[1], str) and e[1][1][0] != "lit":
         return True
     return any(has_undefined_quant_risk(x) if isinstance(x, tuple) else any(has_undefined_quant_risk(y) for y in x) if isinstance(x, list) else False
                for x in e[1:])
